@@ -55,4 +55,4 @@ Example C08_good_outputs :
     Some (ROptNs (Some 32807000000000)); Some (RFired [4; 3]); Some (ROptNs None); Some (RNs 150000000000000) ].
 Proof. exact good_ops_outputs. Qed.
 Example C08_ops_ok_satisfiable : Z.of_nat (length good_ops) <= HMAX /\ ops_ok t_init good_ops.
-Proof. vm_compute. repeat split; try reflexivity; try discriminate. Qed.
+Proof. exact good_ops_ops_ok. Qed.
